@@ -384,8 +384,9 @@ func (m *Manager) ApplyBatch(entries []*wal.Entry) error {
 		}
 
 		// Apply each entry to the MemTable
-		for i, entry := range entries {
-			seqNum := startSeqNum + uint64(i)
+		for _, entry := range entries {
+			// every entry of a batch carries the batch's sequence number, as in the WAL
+			seqNum := startSeqNum
 
 			switch entry.Type {
 			case wal.OpTypePut:
@@ -563,6 +564,14 @@ func (m *Manager) rotateWAL() error {
 
 	// Store the old WAL for proper closure
 	oldWAL := m.wal
+
+	// Continue the sequence numbering of the old WAL in the new one. The old
+	// WAL is already marked as rotating, so it hands out no further numbers
+	// once GetNextSequence has returned; do this before publishing the new WAL
+	// so that no writer can see it with its counter still at 1
+	if oldWAL != nil {
+		newWAL.UpdateNextSequence(oldWAL.GetNextSequence())
+	}
 
 	// Atomically update the WAL reference using atomic pointer operations
 	atomic.StorePointer((*unsafe.Pointer)(unsafe.Pointer(&m.wal)), unsafe.Pointer(newWAL))
